@@ -41,13 +41,155 @@ type chainIndex struct {
 
 func newChainIndex(p *Prog) *chainIndex {
 	ci := &chainIndex{p: p}
+	sum := &paramWriteSummaries{memo: map[*ssa.Function]map[int][]chainWrite{}, busy: map[*ssa.Function]bool{}}
 	for _, fn := range p.ModuleSSAFuncs() {
 		if fn.Origin() != nil {
 			continue
 		}
 		ci.writes = append(ci.writes, ChainWrites(fn)...)
+		// writes performed by callees through a pointer/slice argument that
+		// this function derives from a field: x.hist passed to a helper that
+		// does hist[i]++ is a write of x.hist
+		allCalls(fn, false, func(_ *ssa.Function, call ssa.CallInstruction) {
+			callee := call.Common().StaticCallee()
+			if callee == nil || callee.Blocks == nil || !inModule(callee) {
+				return
+			}
+			ws := sum.of(callee, 0)
+			if len(ws) == 0 {
+				return
+			}
+			for i, a := range call.Common().Args {
+				subs := ws[i]
+				if len(subs) == 0 {
+					continue
+				}
+				fields, root, elem := fieldChain(a)
+				if len(fields) == 0 {
+					continue
+				}
+				_ = elem
+				for _, sw := range subs {
+					ch := append(append([]*types.Var{}, fields...), sw.Chain...)
+					k := sw.Kind
+					if len(sw.Chain) == 0 {
+						k = EffElem
+					}
+					var parent []*types.Var
+					if sw.Parent != nil {
+						parent = append(append([]*types.Var{}, fields...), sw.Parent...)
+					}
+					ci.writes = append(ci.writes, chainWrite{Chain: ch, Kind: k, Pos: call.Pos(), Fn: fn, Root: root, Fresh: isFreshRoot(root), Via: callee, Parent: parent})
+				}
+			}
+		})
 	}
 	return ci
+}
+
+// paramWriteSummaries: for each function, the access chains (relative to a
+// parameter) that the function writes through that parameter, directly or in
+// its static callees (bounded depth). An empty chain means the storage the
+// parameter itself points to / slices (p[i] = …, *p = …, clear(p)).
+type paramWriteSummaries struct {
+	memo map[*ssa.Function]map[int][]chainWrite
+	busy map[*ssa.Function]bool
+}
+
+func (s *paramWriteSummaries) of(fn *ssa.Function, depth int) map[int][]chainWrite {
+	if m, ok := s.memo[fn]; ok {
+		return m
+	}
+	out := map[int][]chainWrite{}
+	if s.busy[fn] || depth > 3 || fn.Blocks == nil {
+		return out
+	}
+	s.busy[fn] = true
+	defer func() { s.busy[fn] = false }()
+	pidx := map[ssa.Value]int{}
+	for i, par := range fn.Params {
+		pidx[par] = i
+	}
+	addW := func(i int, w chainWrite) {
+		for _, old := range out[i] {
+			if len(old.Chain) == len(w.Chain) {
+				same := true
+				for k := range old.Chain {
+					if old.Chain[k] != w.Chain[k] {
+						same = false
+					}
+				}
+				if same {
+					return
+				}
+			}
+		}
+		out[i] = append(out[i], w)
+	}
+	for _, w := range ChainWrites(fn) {
+		if pi, ok := pidx[w.Root]; ok {
+			addW(pi, chainWrite{Chain: w.Chain, Kind: w.Kind, Pos: w.Pos, Fn: fn, Parent: w.Parent})
+		}
+	}
+	for _, b := range fn.Blocks {
+		for _, ins := range b.Instrs {
+			switch x := ins.(type) {
+			case *ssa.Store:
+				// *p = v and p[i] = v through the parameter itself
+				fields, root, elem := fieldChain(x.Addr)
+				if pi, ok := pidx[root]; ok && len(fields) == 0 {
+					_, isPtr := root.Type().Underlying().(*types.Pointer)
+					if elem {
+						addW(pi, chainWrite{Kind: EffElem, Pos: x.Pos(), Fn: fn})
+					} else if isPtr {
+						if _, isStruct := x.Val.Type().Underlying().(*types.Struct); isStruct {
+							var subs [][]*types.Var
+							expandWhole(nil, x.Val.Type(), 0, &subs)
+							for _, sc := range subs {
+								addW(pi, chainWrite{Chain: sc, Kind: EffWhole, Pos: x.Pos(), Fn: fn, Parent: []*types.Var{}})
+							}
+						} else {
+							addW(pi, chainWrite{Kind: EffElem, Pos: x.Pos(), Fn: fn})
+						}
+					}
+				}
+			}
+			call, ok := ins.(ssa.CallInstruction)
+			if !ok {
+				continue
+			}
+			cc := call.Common()
+			if bi, ok := cc.Value.(*ssa.Builtin); ok {
+				if (bi.Name() == "clear" || bi.Name() == "copy") && len(cc.Args) > 0 {
+					fields, root, _ := fieldChain(cc.Args[0])
+					if pi, ok := pidx[root]; ok && len(fields) == 0 {
+						addW(pi, chainWrite{Kind: EffElem, Pos: call.Pos(), Fn: fn})
+					}
+				}
+				continue
+			}
+			if callee := cc.StaticCallee(); callee != nil && inModule(callee) {
+				inner := s.of(callee, depth+1)
+				for j, a := range cc.Args {
+					if len(inner[j]) == 0 {
+						continue
+					}
+					fields, root, _ := fieldChain(a)
+					if pi, ok := pidx[root]; ok {
+						for _, sw := range inner[j] {
+							var parent []*types.Var
+							if sw.Parent != nil {
+								parent = append(append([]*types.Var{}, fields...), sw.Parent...)
+							}
+							addW(pi, chainWrite{Chain: append(append([]*types.Var{}, fields...), sw.Chain...), Kind: sw.Kind, Pos: call.Pos(), Fn: fn, Parent: parent})
+						}
+					}
+				}
+			}
+		}
+	}
+	s.memo[fn] = out
+	return out
 }
 
 type opWrite struct {
@@ -125,6 +267,9 @@ func runResetRule(c *Ctx, rule string, ci *chainIndex, spec resetSpec) {
 		bk := baseFuncKey(w.Fn)
 		if closureKeys[fk] || ctor[bk] {
 			continue
+		}
+		if w.Via != nil && (closureKeys[FuncKey(w.Via)] || ctor[baseFuncKey(w.Via)]) {
+			continue // the write happens inside a reset/constructor function this one calls
 		}
 		if _, ok := spec.IgnoreFns[bk]; ok {
 			continue
